@@ -22,29 +22,55 @@ HDR = 'set_option linter.unusedVariables false\nvariable {K : Type} [Num K]\n'
 # ------------------------------------------------------------------------------------------------
 class PTr(Tr):
     """`Tr` in mode 'num' plus:
-    * `ints`: python names that are Python ints (Lean `Int` variables); in scalar context they appear as
-      `(Num.ofInt name)`; in integer context (`range` bounds, comparisons, arguments of `intfuncs`) verbatim;
-    * `nats`: names usable as exponents: `x ** m` -> `Num.npow x (Int.toNat m)`;
+    * `ints`: python names that are Python ints (Lean `Int` variables of the same name); in scalar context they appear as
+      `(Num.ofInt name)`; in integer context (`range` bounds, comparisons, integer arguments of calls) verbatim;
+    * `x ** m` with an integer `m` -> `Num.npow x (Int.toNat m)`;
     * `np.ones_like(x)` -> 1, `np.zeros_like(x)` -> 0, `np.sqrt(e)` -> `sqrt e` (a parameter of the model);
-    * `intfuncs`: callee text -> Lean function applied to the arguments translated as integers.
+    * `unary`: callee text -> name of a function parameter `K → K` (np.sin -> sinf, np.cos -> cosf);
+    * `intfuncs`: callee text -> Lean function applied to the arguments translated as integers;
+    * `mixed`: callee text -> (Lean function, kinds) with kinds a string over {i, k}: integer / scalar arguments;
+    * `bools`: names of Python bool parameters (Lean `Bool`).
     """
 
-    def __init__(self, env, ints=(), funcs=None, intfuncs=None, sqrt=None):
+    def __init__(self, env, ints=(), funcs=None, intfuncs=None, sqrt=None, mixed=None, unary=None, bools=()):
         super().__init__(env, 'num', funcs)
         self.ints = set(ints)
         self.intfuncs = dict(intfuncs or {})
         self.sqrt = sqrt
+        self.mixed = dict(mixed or {})
+        self.unary = dict(unary or {})
+        self.bools = set(bools)
 
     def clone(self, env=None, ints=None):
         return PTr(self.env if env is None else env, self.ints if ints is None else ints, self.funcs,
-                   self.intfuncs, self.sqrt)
+                   self.intfuncs, self.sqrt, self.mixed, self.unary, self.bools)
 
     def itr(self):
         return Tr({k: k for k in self.ints}, 'int')
 
+    def is_int(self, e):
+        """is `e` an integer-valued expression of integer names (no true division, no float literal, no array call)?"""
+        for n in ast.walk(e):
+            if isinstance(n, ast.Name):
+                if n.id not in self.ints and n.id != 'abs':
+                    return False
+            elif isinstance(n, ast.Constant):
+                if not isinstance(n.value, int) or isinstance(n.value, bool):
+                    return False
+            elif isinstance(n, ast.Call):
+                if ast.unparse(n.func) != 'abs':
+                    return False
+            elif isinstance(n, ast.BinOp):
+                if isinstance(n.op, (ast.Div, ast.Pow)):
+                    return False
+            elif not isinstance(n, (ast.UnaryOp, ast.USub, ast.UAdd, ast.Add, ast.Sub, ast.Mult, ast.FloorDiv, ast.Mod,
+                                    ast.Load, ast.expr_context, ast.operator, ast.unaryop)):
+                return False
+        return any(isinstance(n, ast.Name) and n.id in self.ints for n in ast.walk(e))
+
     def int_expr(self, e):
         for n in ast.walk(e):
-            if isinstance(n, ast.Name) and n.id not in self.ints:
+            if isinstance(n, ast.Name) and n.id not in self.ints and n.id != 'abs':
                 raise Untranslatable(f'{n.id} used as an integer')
         return self.itr().expr(e)
 
@@ -63,19 +89,36 @@ class PTr(Tr):
                 if not self.sqrt:
                     raise Untranslatable('sqrt without a sqrt parameter')
                 return f'({self.sqrt} {self.expr(e.args[0])})'
+            if f in self.unary and len(e.args) == 1 and not e.keywords:
+                return f'({self.unary[f]} {self.expr(e.args[0])})'
             if f in self.intfuncs:
                 return '(' + ' '.join([self.intfuncs[f]] + [self.int_expr(a) for a in e.args]) + ')'
+            if f in self.mixed:
+                fn, kinds = self.mixed[f]
+                if len(e.args) != len(kinds) or e.keywords:
+                    raise Untranslatable(f'call {ast.unparse(e)[:50]}: expected {len(kinds)} positional arguments')
+                args = [self.int_expr(a) if kd == 'i' else self.expr(a) for a, kd in zip(e.args, kinds)]
+                return '(' + ' '.join([fn] + args) + ')'
+            if f == 'abs' and len(e.args) == 1 and self.is_int(e.args[0]):
+                return f'(Num.ofInt {self.int_expr(e)})'
+        if self.is_int(e) and not isinstance(e, ast.Name):
+            # an integer sub-expression meeting scalars: computed in Python ints, then converted
+            return f'(Num.ofInt {self.int_expr(e)})'
         return super().expr(e)
 
     def cond(self, e):
+        if isinstance(e, ast.Name) and e.id in self.bools:
+            return f'({e.id} = true)'
         # comparisons between integers are translated in integer mode
         if isinstance(e, ast.Compare):
-            names = {n.id for n in ast.walk(e) if isinstance(n, ast.Name)}
+            names = {n.id for n in ast.walk(e) if isinstance(n, ast.Name)} - {'abs'}
             if names and names <= self.ints:
                 return self.itr().cond(e)
         if isinstance(e, ast.BoolOp):
             sym = ' ∧ ' if isinstance(e.op, ast.And) else ' ∨ '
             return '(' + sym.join(self.cond(v) for v in e.values) + ')'
+        if isinstance(e, ast.UnaryOp) and isinstance(e.op, ast.Not):
+            return f'(¬ {self.cond(e.operand)})'
         return super().cond(e)
 
 
@@ -111,9 +154,10 @@ def assigned_names(stmts):
 class Body:
     """statement translator: python statements -> one Lean term (the returned value)"""
 
-    def __init__(self, tr, tuple_funcs=None, hooks=None, indent='  '):
-        self.tuple_funcs = dict(tuple_funcs or {})   # callee -> (lean fn, arity of result, which args are scalar)
-        self.hooks = hooks or []                      # callables (self, stmt, rest, tr, ind) -> str | None
+    def __init__(self, tr, tuple_funcs=None, fname='f'):
+        self.tuple_funcs = dict(tuple_funcs or {})   # callee -> (lean fn, arity of result)
+        self.fname = fname                            # prefix of the loop-state accessor abbreviations
+        self.prelude = []                             # Lean declarations emitted before the function
 
     def lets_for_assign(self, s, tr):
         """-> (list of 'let a := b', new tr) for an Assign / AugAssign statement"""
@@ -127,6 +171,12 @@ class Body:
         ints = set(tr.ints)
         lets = []
         if isinstance(t, ast.Name):
+            if tr.is_int(v):
+                # a Python int computed from Python ints stays a Lean Int of the same name
+                lets.append(f'let {t.id} : Int := {tr.int_expr(v)}')
+                env.pop(t.id, None)
+                ints.add(t.id)
+                return lets, tr.clone(env, ints)
             lets.append(f'let {t.id}_ := {tr.expr(v)}')
             env[t.id] = f'{t.id}_'
             ints.discard(t.id)
@@ -167,50 +217,102 @@ class Body:
                 return lets, tr.clone(env, ints)
         raise Untranslatable(f'assignment {ast.unparse(s)[:60]}')
 
+    def var(self, nm, tr):
+        if nm in tr.ints:
+            return nm
+        return tr.env.get(nm, '(Num.ofInt (0))')
+
+    def block(self, stmts, tr, ind):
+        """statements without return / loop -> (lines, tr)"""
+        lines = []
+        for st in stmts:
+            if isinstance(st, ast.Expr) and isinstance(st.value, ast.Constant) or isinstance(st, ast.Pass):
+                continue
+            if isinstance(st, ast.If):
+                ls, tr = self.cond_update(st, tr, ind)
+            else:
+                ls, tr = self.lets_for_assign(st, tr)
+            lines += ls
+        return lines, tr
+
+    def cond_update(self, s, tr, ind):
+        """`if c: <assignments> [else: <assignments>]` (no return inside) -> the assigned names, in sorted order, as one tuple"""
+        orelse = s.orelse or []
+        if _returns(s.body) or _returns(orelse):
+            raise Untranslatable('return inside a conditional block')
+        c = tr.cond(s.test)
+        names = sorted(set(assigned_names(s.body)) | set(assigned_names(orelse)))
+        i2 = ind + '    '
+        l1, t1 = self.block(s.body, tr, i2)
+        l2, t2 = self.block(orelse, tr, i2)
+        if {nm for nm in names if nm in t1.ints} != {nm for nm in names if nm in t2.ints}:
+            raise Untranslatable('a name is an int in one branch and an array in the other')
+        tys = ' × '.join('Int' if nm in t1.ints else 'K' for nm in names)
+        then = ('\n' + i2).join(l1 + [_tuple([self.var(nm, t1) for nm in names])])
+        els = ('\n' + i2).join(l2 + [_tuple([self.var(nm, t2) for nm in names])])
+        tag = 'st_' + '_'.join(names)
+        out = [f'let {tag} : {tys} := if {c} then\n{i2}{then}\n{ind}  else\n{i2}{els}']
+        env, ints = dict(tr.env), set(tr.ints)
+        for k, nm in enumerate(names):
+            pr = _proj(k, len(names)).replace('s', tag, 1)
+            if nm in t1.ints:
+                out.append(f'let {nm} : Int := {pr}')
+                ints.add(nm)
+                env.pop(nm, None)
+            else:
+                out.append(f'let {nm}_ := {pr}')
+                env[nm] = f'{nm}_'
+                ints.discard(nm)
+        return out, tr.clone(env, ints)
+
     def loop(self, s, tr, ind):
-        """for v in range(a, b): body  ->  (lets, new tr)"""
+        """for v in range(a, b): body  ->  (lets, new tr).  The loop-assigned variables are carried as a tuple in SORTED
+        name order; accessor abbreviations `<fn>_st_<var>` are emitted so that proofs never use positions."""
         if not (isinstance(s.target, ast.Name) and isinstance(s.iter, ast.Call) and ast.unparse(s.iter.func) == 'range'
                 and len(s.iter.args) == 2 and not s.orelse):
             raise Untranslatable(f'loop header {ast.unparse(s).splitlines()[0]}')
         v = s.target.id
         lo, hi = tr.int_expr(s.iter.args[0]), tr.int_expr(s.iter.args[1])
-        names = assigned_names(s.body)
+        names = sorted(assigned_names(s.body))
         if not names:
             raise Untranslatable('loop assigns nothing')
-        init = [tr.env.get(nm, '(Num.ofInt (0))') if nm not in tr.ints else f'(Num.ofInt {nm})' for nm in names]
-        env = dict(tr.env)
+        int_names = {nm for nm in names if nm in tr.ints}
+        for _ in range(3):      # which carried names are Python ints: fixpoint over the body
+            env = {k_: v_ for k_, v_ in tr.env.items() if k_ not in int_names}
+            for nm in names:
+                if nm not in int_names:
+                    env[nm] = f'{nm}_'
+            env.pop(v, None)
+            btr = tr.clone(env, (set(tr.ints) - set(names)) | int_names | {v})
+            i2 = ind + '    '
+            lines, btr2 = self.block(s.body, btr, i2)
+            new_int = {nm for nm in names if nm in btr2.ints}
+            if new_int == int_names:
+                break
+            int_names = new_int
+        else:
+            raise Untranslatable('loop variable types do not stabilise')
+        tys = ['Int' if nm in int_names else 'K' for nm in names]
+        sty = ' × '.join(tys)
+        acc = {nm: f'{self.fname}_st_{nm}' for nm in names}
         for k, nm in enumerate(names):
-            env[nm] = f'{nm}_'
-        ints = (set(tr.ints) - set(names)) | {v}
-        env.pop(v, None)
-        btr = tr.clone(env, ints)
-        i2 = ind + '    '
-        lines = [f'let {nm}_ := {_proj(k, len(names))}' for k, nm in enumerate(names)]
-        for st in s.body:
-            if isinstance(st, ast.Expr) and isinstance(st.value, ast.Constant):
-                continue
-            done = False
-            for h in self.hooks:
-                r = h(self, st, btr)
-                if r is not None:
-                    ls, btr = r
-                    lines += ls
-                    done = True
-                    break
-            if not done:
-                ls, btr = self.lets_for_assign(st, btr)
-                lines += ls
-        final = _tuple([btr.env[nm] for nm in names])
-        ty = ' × '.join(self.state_types.get(nm, 'K') for nm in names) if hasattr(self, 'state_types') else \
-            ' × '.join('K' for _ in names)
-        body = ('\n' + i2).join(lines + [final])
+            self.prelude.append(f'abbrev {acc[nm]} {{K : Type}} (s : {sty}) : {tys[k]} := {_proj(k, len(names))}')
+        head = [f'let {nm} : Int := {acc[nm]} s' if nm in int_names else f'let {nm}_ := {acc[nm]} s' for nm in names]
+        final = _tuple([self.var(nm, btr2) for nm in names])
+        init = [(nm if nm in tr.ints else '(0 : Int)') if nm in int_names else tr.env.get(nm, '(Num.ofInt (0))') for nm in names]
+        body = ('\n' + i2).join(head + lines + [final])
         loopname = f'loop_{v}'
-        lets = [f'let {loopname} := {M}.forRange {lo} {hi} (fun ({v} : Int) (s : {ty}) =>\n{i2}{body}) {_tuple(init)}']
-        env2 = dict(tr.env)
-        ints2 = set(tr.ints) - set(names)
-        for k, nm in enumerate(names):
-            env2[nm] = f'{nm}_'
-            lets.append(f'let {nm}_ := {_proj(k, len(names)).replace("s", loopname, 1)}')
+        lets = [f'let {loopname} := {M}.forRange {lo} {hi} (fun ({v} : Int) (s : {sty}) =>\n{i2}{body}) {_tuple(init)}']
+        env2, ints2 = dict(tr.env), set(tr.ints)
+        for nm in names:
+            if nm in int_names:
+                lets.append(f'let {nm} : Int := {acc[nm]} {loopname}')
+                ints2.add(nm)
+                env2.pop(nm, None)
+            else:
+                lets.append(f'let {nm}_ := {acc[nm]} {loopname}')
+                env2[nm] = f'{nm}_'
+                ints2.discard(nm)
         return lets, tr.clone(env2, ints2)
 
     def run(self, stmts, tr, ind='  '):
@@ -221,25 +323,22 @@ class Body:
             return self.run(rest, tr, ind)
         if isinstance(s, ast.Pass):
             return self.run(rest, tr, ind)
-        for h in self.hooks:
-            r = h(self, s, tr)
-            if r is not None:
-                ls, tr2 = r
-                return ('\n' + ind).join(ls + [self.run(rest, tr2, ind)])
         if isinstance(s, ast.Return):
             if s.value is None:
                 raise Untranslatable('bare return')
             return self.ret(s.value, tr)
-        if isinstance(s, ast.If):
+        if isinstance(s, ast.If) and (_returns(s.body) or _returns(s.orelse or [])):
             c = tr.cond(s.test)
             orelse = s.orelse or []
             then = self.run(s.body + ([] if _returns(s.body) else rest), tr, ind + '  ')
             els = self.run(orelse + ([] if _returns(orelse) else rest), tr, ind + '  ')
             return f'if {c} then\n{ind}  {then}\n{ind}else\n{ind}  {els}'
-        if isinstance(s, ast.For):
+        if isinstance(s, ast.If):
+            ls, tr2 = self.cond_update(s, tr, ind)
+        elif isinstance(s, ast.For):
             ls, tr2 = self.loop(s, tr, ind)
-            return ('\n' + ind).join(ls + [self.run(rest, tr2, ind)])
-        ls, tr2 = self.lets_for_assign(s, tr)
+        else:
+            ls, tr2 = self.lets_for_assign(s, tr)
         return ('\n' + ind).join(ls + [self.run(rest, tr2, ind)])
 
     def ret(self, value, tr):
@@ -260,18 +359,25 @@ def _returns(stmts):
 
 
 def translate_fn(fn, lean_name, int_params, k_params, tr_kwargs=None, tuple_funcs=None, extra_binders='',
-                 ret='K'):
-    tr = PTr({p: p for p in k_params}, ints=int_params, **(tr_kwargs or {}))
+                 ret='K', bool_params=(), allow_extra=()):
+    """whole function -> Lean.  Parameters must be exactly int_params + k_params + bool_params (+ allow_extra, which the body
+    must not read)."""
+    kw = dict(tr_kwargs or {})
+    kw['bools'] = set(bool_params)
+    tr = PTr({p: p for p in k_params}, ints=int_params, **kw)
     got = [a.arg for a in fn.args.args]
-    want = list(int_params) + list(k_params)
-    if got[:len(want)] != want and sorted(got) != sorted(want):
-        # extra keyword parameters (with defaults) are allowed only if unused by the translation
-        missing = [p for p in want if p not in got]
-        if missing:
-            raise Untranslatable(f'parameters {missing} not found in {got}')
-    body = Body(tr, tuple_funcs=tuple_funcs).run(fn.body, tr)
-    binders = ' '.join([f'({p} : Int)' for p in int_params] + [f'({p} : K)' for p in k_params])
-    return f'def {lean_name} {extra_binders}{binders} : {ret} :=\n  {body}\n'
+    want = list(int_params) + list(k_params) + list(bool_params)
+    if sorted(set(got) - set(allow_extra)) != sorted(want):
+        raise Untranslatable(f'parameters {got}, expected {want}')
+    for n in ast.walk(ast.Module(body=fn.body, type_ignores=[])):
+        if isinstance(n, ast.Name) and n.id in allow_extra:
+            raise Untranslatable(f'body reads {n.id}')
+    bd = Body(tr, tuple_funcs=tuple_funcs, fname=lean_name)
+    body = bd.run(fn.body, tr)
+    binders = ' '.join([f'({p} : Int)' for p in int_params] + [f'({p} : K)' for p in k_params]
+                       + [f'({p} : Bool)' for p in bool_params])
+    pre = ''.join(x + '\n' for x in bd.prelude)
+    return f'{pre}def {lean_name} {extra_binders}{binders} : {ret} :=\n  {body}\n'
 
 
 ABC_TUPLE = {'recurrence_abc': ('abc', 3)}
@@ -335,211 +441,78 @@ def generate(repo):
         g.item(py, f'prysm/polynomials/{rel}:{py}', (lambda mod=mod, py=py: get_def(mod, py)), build,
                f'def {lean} (n : Int) ({" ".join(ks)} : K) : K := {M}.{model}')
 
-    # ---- Chebyshev: which Jacobi parameters, which normaliser
-    def cheby(kind):
-        def build():
-            fn = get_def(che, f'cheby{kind}')
-            c = find_assign(fn, 'c')
-            (ret,) = find_returns(fn)
-            if not (isinstance(ret, ast.BinOp) and isinstance(ret.op, ast.Mult) and ast.unparse(ret.right) == 'c'):
-                raise Untranslatable(f'cheby{kind} does not return <jacobi> * c')
-            call = ret.left
-            if not (isinstance(call, ast.Call) and ast.unparse(call.func) == 'jacobi' and len(call.args) == 4
-                    and ast.unparse(call.args[0]) == 'n' and ast.unparse(call.args[3]) == 'x'):
-                raise Untranslatable(f'cheby{kind} value is not jacobi(n, a, b, x)')
-            if not (isinstance(c, ast.BinOp) and isinstance(c.op, ast.Div) and isinstance(c.right, ast.Call)
-                    and ast.unparse(c.right.func) == 'jacobi' and len(c.right.args) == 4
-                    and ast.unparse(c.right.args[0]) == 'n'):
-                raise Untranslatable(f'cheby{kind} normaliser is not <num> / jacobi(n, a, b, 1)')
-            tr = PTr({}, ints=['n'])
-            a, b = tr.expr(call.args[1]), tr.expr(call.args[2])
-            a1, b1, x1 = (tr.expr(c.right.args[k]) for k in (1, 2, 3))
-            num = tr.expr(c.left)
-            return (f'/-- `cheby{kind}(n, x) = jacobi(n, a, b, x) * (num / jacobi(n, a1, b1, x1))` : `(a, b, a1, b1, x1, num)` -/\n'
-                    f'def cheby{kind}Params (n : Int) : K × K × K × K × K × K := ({a}, {b}, {a1}, {b1}, {x1}, {num})')
-        return build
-    fall = {1: ('mhalf', 'mhalf', 'Num.ofInt 1'), 2: ('half', 'half', 'Num.ofInt n + Num.ofInt 1'),
-            3: ('mhalf', 'half', 'Num.ofInt 1'), 4: ('half', 'mhalf', 'Num.ofInt 2 * Num.ofInt n + Num.ofInt 1')}
+    JAC = {'jacobi': ('jacobi', 'ikkk')}
+
+    # ---- Chebyshev of the four kinds, Legendre, Qcon: whole bodies (they call the translated `jacobi`)
+    fall = {1: 'cheby1', 2: 'cheby2', 3: 'cheby3', 4: 'cheby4'}
     for kind in (1, 2, 3, 4):
-        a, b, num = fall[kind]
-        g.item(f'cheby{kind}', f'prysm/polynomials/cheby.py:cheby{kind}', (lambda kind=kind: get_def(che, f'cheby{kind}')),
-               cheby(kind),
-               f'def cheby{kind}Params (n : Int) : K × K × K × K × K × K := '
-               f'({M}.{a}, {M}.{b}, {M}.{a}, {M}.{b}, Num.ofInt 1, {num})')
+        def build(kind=kind):
+            return translate_fn(get_def(che, f'cheby{kind}'), f'cheby{kind}', ['n'], ['x'], tr_kwargs={'mixed': JAC},
+                                extra_binders='[DecidableEq K] ')
+        g.item(f'cheby{kind}', f'prysm/polynomials/cheby.py:cheby{kind}', (lambda kind=kind: get_def(che, f'cheby{kind}')), build,
+               f'def cheby{kind} [DecidableEq K] (n : Int) (x : K) : K := {M}.cheby{kind} n.toNat x')
 
-    # ---- Legendre parameters
     def legendre():
-        fn = get_def(leg, 'legendre')
-        (ret,) = find_returns(fn)
-        if not (isinstance(ret, ast.Call) and ast.unparse(ret.func) == 'jacobi' and len(ret.args) == 4
-                and ast.unparse(ret.args[0]) == 'n' and ast.unparse(ret.args[3]) == 'x'):
-            raise Untranslatable('legendre is not jacobi(n, a, b, x)')
-        tr = PTr({})
-        return f'def legendreParams : K × K := ({tr.expr(ret.args[1])}, {tr.expr(ret.args[2])})'
+        return translate_fn(get_def(leg, 'legendre'), 'legendre', ['n'], ['x'], tr_kwargs={'mixed': JAC},
+                            extra_binders='[DecidableEq K] ')
     g.item('legendre', 'prysm/polynomials/legendre.py:legendre', lambda: get_def(leg, 'legendre'), legendre,
-           'def legendreParams : K × K := (Num.ofInt 0, Num.ofInt 0)')
+           f'def legendre [DecidableEq K] (n : Int) (x : K) : K := {M}.legendre n.toNat x')
 
-    # ---- Zernike: norm (argument of the square root), jacobi arguments, radial power, azimuthal convention
+    def qcon():
+        return translate_fn(get_def(qp, 'Qcon'), 'qcon', ['n'], ['x'], tr_kwargs={'mixed': JAC}, extra_binders='[DecidableEq K] ')
+    g.item('Qcon', 'prysm/polynomials/qpoly.py:Qcon', lambda: get_def(qp, 'Qcon'), qcon,
+           f'def qcon [DecidableEq K] (n : Int) (x : K) : K := {M}.qcon n.toNat x')
+
+    # ---- Zernike: norm and the whole body of zernike_nm (sin, cos, sqrt are parameters)
+    KRON = {'kronecker': (f'{M}.kroneckerK', 'ii')}
+
     def znorm():
-        fn = get_def(zer, 'zernike_norm')
-        (ret,) = find_returns(fn)
-        if not (isinstance(ret, ast.Call) and ast.unparse(ret.func) in ('truenp.sqrt', 'np.sqrt') and len(ret.args) == 1):
-            raise Untranslatable('zernike_norm is not sqrt(<expr>)')
-        tr = PTr({}, ints=['n', 'm'],
-                 funcs={'kronecker': lambda a: f'(if {a[0]} = {a[1]} then (Num.ofInt (1)) else (Num.ofInt (0)))'})
-        # kronecker's arguments are integers: translate the comparison in integer mode
-        tr.funcs['kronecker'] = None
-        arg = ret.args[0]
-
-        class KTr(PTr):
-            def call(self, e):
-                if ast.unparse(e.func) == 'kronecker' and len(e.args) == 2:
-                    return (f'(if {self.int_expr(e.args[0])} = {self.int_expr(e.args[1])} '
-                            f'then (Num.ofInt (1)) else (Num.ofInt (0)))')
-                return super().call(e)
-        return f'def zernikeNormSq (n m : Int) : K := {KTr({}, ints=["n", "m"]).expr(arg)}'
+        return translate_fn(get_def(zer, 'zernike_norm'), 'zernikeNorm', ['n', 'm'], [], tr_kwargs={'mixed': KRON, 'sqrt': 'sqrt'},
+                            extra_binders='(sqrt : K → K) ')
     g.item('zernike_norm', 'prysm/polynomials/zernike.py:zernike_norm', lambda: get_def(zer, 'zernike_norm'), znorm,
-           f'def zernikeNormSq (n m : Int) : K := {M}.zernikeNormSq n.toNat m')
+           f'def zernikeNorm (sqrt : K → K) (n m : Int) : K := sqrt ({M}.zernikeNormSq n.toNat m)')
 
     def znm():
-        fn = get_def(zer, 'zernike_nm')
-        x = find_assign(fn, 'x')
-        am = find_assign(fn, 'am')
-        nj = find_assign(fn, 'n_j')
-        out = find_assign(fn, 'out')
-        if ast.unparse(am) != 'abs(m)':
-            raise Untranslatable('am is not abs(m)')
-        if not (isinstance(out, ast.Call) and ast.unparse(out.func) == 'jacobi' and len(out.args) == 4
-                and ast.unparse(out.args[0]) == 'n_j' and ast.unparse(out.args[3]) == 'x'):
-            raise Untranslatable('radial polynomial is not jacobi(n_j, a, b, x)')
-        itr = Tr({'n': 'n', 'am': '(Int.natAbs m : Int)'}, 'int')
-        ktr = PTr({'r': 'r', 'am': '(Num.ofInt (Int.natAbs m : Int))'})
-        return (f'def zernikeX (r : K) : K := {ktr.expr(x)}\n'
-                f'def zernikeNj (n m : Int) : Int := {itr.expr(nj)}\n'
-                f'def zernikeAB (m : Int) : K × K := ({ktr.expr(out.args[1])}, {ktr.expr(out.args[2])})')
-    g.item('zernike_nm.radial', 'prysm/polynomials/zernike.py:zernike_nm', lambda: get_def(zer, 'zernike_nm'), znm,
-           f'def zernikeX (r : K) : K := Num.ofInt 2 * (r * r) - Num.ofInt 1\n'
-           f'def zernikeNj (n m : Int) : Int := (n - (Int.natAbs m : Int)) / 2\n'
-           f'def zernikeAB (m : Int) : K × K := (Num.ofInt 0, Num.ofInt (Int.natAbs m : Int))')
+        return translate_fn(get_def(zer, 'zernike_nm'), 'zernikeNm', ['n', 'm'], ['r', 't'], bool_params=['norm'],
+                            tr_kwargs={'mixed': {**JAC, 'zernike_norm': ('zernikeNorm sqrt', 'ii')},
+                                       'unary': {'np.sin': 'sinf', 'np.cos': 'cosf'}},
+                            extra_binders='[DecidableEq K] (sinf cosf sqrt : K → K) ')
+    g.item('zernike_nm', 'prysm/polynomials/zernike.py:zernike_nm', lambda: get_def(zer, 'zernike_nm'), znm,
+           f'def zernikeNm [DecidableEq K] (sinf cosf sqrt : K → K) (n m : Int) (r t : K) (norm : Bool) : K :=\n'
+           f'  {M}.zernike n.toNat m r (if m < 0 then sinf (Num.ofInt (Int.natAbs m) * t) else cosf (Num.ofInt m * t))\n'
+           f'    (if norm = true then zernikeNorm sqrt n m else Num.ofInt 1)')
 
-    def zaz():
-        """m < 0 -> r**am * sin(am t) ; m > 0 -> r**am * cos(m t) ; m == 0 -> nothing; then the norm"""
-        fn = get_def(zer, 'zernike_nm')
-        ifs = [s for s in fn.body if isinstance(s, ast.If)]
-        top = [s for s in ifs if ast.unparse(s.test) == 'm != 0']
-        if len(top) != 1 or len(top[0].body) != 1 or not isinstance(top[0].body[0], ast.If) or top[0].orelse:
-            return False
-        inner = top[0].body[0]
-        ok = ast.unparse(inner.test) == 'm < 0' \
-            and [ast.unparse(s) for s in inner.body] == ['out *= r ** am * np.sin(am * t)'] \
-            and [ast.unparse(s) for s in inner.orelse] == ['out *= r ** am * np.cos(m * t)']
-        nrm = [s for s in ifs if ast.unparse(s.test) == 'norm']
-        ok = ok and len(nrm) == 1 and [ast.unparse(s) for s in nrm[0].body] == ['out *= zernike_norm(n, m)'] \
-            and not nrm[0].orelse
-        (ret,) = find_returns(fn)
-        return ok and ast.unparse(ret) == 'out'
-    g.fact('zernikeAzimuthNegSinPosCosTimesRPowAbsM', 'prysm/polynomials/zernike.py:zernike_nm', zaz)
-
-    # ---- Qcon, XY, Hopkins
-    def qcon():
-        fn = get_def(qp, 'Qcon')
-        tr = PTr({'x': 'x'})
-        b = Body(tr, tuple_funcs={})
-        # straight-line: xx = x**2 ; xx = 2*xx - 1 ; Pn = jacobi(n, 0, 4, xx) ; return Pn * x**4
-        calls = find_calls(fn, 'jacobi')
-        if len(calls) != 1 or ast.unparse(calls[0].args[0]) != 'n':
-            raise Untranslatable('Qcon does not call jacobi(n, …) once')
-        c = calls[0]
-        ktr = PTr({'x': 'x', 'xx': 'xx'})
-        stm = [s for s in fn.body if not (isinstance(s, ast.Expr) and isinstance(s.value, ast.Constant))]
-        pre = []
-        trc = PTr({'x': 'x'})
-        bod = Body(trc)
-        k = 0
-        while k < len(stm) and not any(isinstance(n, ast.Call) and ast.unparse(n.func) == 'jacobi' for n in ast.walk(stm[k])):
-            ls, trc = bod.lets_for_assign(stm[k], trc)
-            pre += ls
-            k += 1
-        if not (isinstance(stm[k], ast.Assign) and stm[k].value is c and isinstance(stm[k + 1], ast.Return)):
-            raise Untranslatable('Qcon shape')
-        pn = stm[k].targets[0].id
-        arg = trc.expr(c.args[3])
-        a, bb = trc.expr(c.args[1]), trc.expr(c.args[2])
-        env = dict(trc.env)
-        env[pn] = 'P'
-        retv = trc.clone(env).expr(stm[k + 1].value)
-        lets = '\n  '.join(pre)
-        return (f'def qconX (x : K) : K :=\n  {lets}\n  {arg}\n'
-                f'def qconAB : K × K := ({a}, {bb})\n'
-                f'def qconOut (P x : K) : K :=\n  {lets}\n  {retv}')
-    g.item('Qcon', 'prysm/polynomials/qpoly.py:Qcon', lambda: get_def(qp, 'Qcon'), qcon,
-           'def qconX (x : K) : K := Num.ofInt 2 * (x * x) - Num.ofInt 1\n'
-           'def qconAB : K × K := (Num.ofInt 0, Num.ofInt 4)\n'
-           'def qconOut (P x : K) : K := P * Num.npow x 4')
-
+    # ---- XY, Hopkins
     def xy():
         fn = get_def(xyf, 'xy')
-        (ret,) = find_returns(fn)
+        stm = [st for st in fn.body if not (isinstance(st, ast.Expr) and isinstance(st.value, ast.Constant))]
+        # the only statement besides the return may be the separable-grid shortcut, which reshapes x and y (point-wise identity)
+        if len(stm) == 2 and isinstance(stm[0], ast.If) and not stm[0].orelse \
+                and [ast.unparse(q) for q in stm[0].body] == ['x, y = optimize_xy_separable(x, y)']:
+            stm = stm[1:]
+        if len(stm) != 1 or not isinstance(stm[0], ast.Return):
+            raise Untranslatable('xy has statements other than the separable-grid shortcut and the return')
         tr = PTr({'x': 'x', 'y': 'y'}, ints=['m', 'n'])
-        return f'def xy (m n : Int) (x y : K) : K := {tr.expr(ret)}'
+        return f'def xy (m n : Int) (x y : K) : K := {tr.expr(stm[0].value)}'
     g.item('xy', 'prysm/polynomials/xy.py:xy', lambda: get_def(xyf, 'xy'), xy,
            f'def xy (m n : Int) (x y : K) : K := {M}.xy m.toNat n.toNat x y')
 
     def hopkins():
-        fn = get_def(ini, 'hopkins')
-        (ret,) = find_returns(fn)
-        c2, c3 = find_assign(fn, 'c2'), find_assign(fn, 'c3')
-        tr = PTr({'r': 'r', 'H': 'H', 'c1': 'az'}, ints=['b', 'c'])
-        tr2 = tr.clone({**tr.env, 'c2': tr.expr(c2), 'c3': tr.expr(c3)})
-        first = [s for s in fn.body if isinstance(s, ast.If)]
-        if not (len(first) == 1 and ast.unparse(first[0].test) == 'a < 0'
-                and [ast.unparse(s) for s in first[0].body] == ['c1 = np.sin(abs(a) * t)']
-                and [ast.unparse(s) for s in first[0].orelse] == ['c1 = np.cos(a * t)']):
-            raise Untranslatable('azimuthal factor of hopkins is not sin(|a| t) for a < 0, cos(a t) otherwise')
-        return f'def hopkins (b c : Int) (az r H : K) : K := {tr2.expr(ret)}'
+        return translate_fn(get_def(ini, 'hopkins'), 'hopkins', ['a', 'b', 'c'], ['r', 't', 'H'],
+                            tr_kwargs={'unary': {'np.sin': 'sinf', 'np.cos': 'cosf'}}, extra_binders='(sinf cosf : K → K) ')
     g.item('hopkins', 'prysm/polynomials/__init__.py:hopkins', lambda: get_def(ini, 'hopkins'), hopkins,
-           f'def hopkins (b c : Int) (az r H : K) : K := {M}.hopkins b.toNat c.toNat az r H')
+           f'def hopkins (sinf cosf : K → K) (a b c : Int) (r t H : K) : K :=\n'
+           f'  {M}.hopkins b.toNat c.toNat (if a < 0 then sinf (Num.ofInt (Int.natAbs a) * t) else cosf (Num.ofInt a * t)) r H')
 
-    # ---- Qbfs: auxiliary f/g/h bodies and the sag polynomial (loop included), sqrt as a parameter
-    def fgh():
-        f, gq, h = get_def(qp, 'f_qbfs'), get_def(qp, 'g_qbfs'), get_def(qp, 'h_qbfs')
-        # h(n-2): n = n_minus_2 + 2 ; return -n (n-1) / (2 f(n-2))
-        htr = PTr({'f_qbfs(n_minus_2)': 'f'}, ints=['n_minus_2'])
-        hb = Body(htr).run(h.body, htr)
-        # g(n-1) = -(1 + g(n-2) h(n-2)) / f(n-1)  for n-1 > 0 ; -1/2 at 0
-        if not (len([s for s in gq.body if isinstance(s, ast.If)]) == 1):
-            raise Untranslatable('g_qbfs shape')
-        gi = [s for s in gq.body if isinstance(s, ast.If)][0]
-        if ast.unparse(gi.test) != 'n_minus_1 == 0':
-            raise Untranslatable('g_qbfs base case')
-        g0 = PTr({}).expr(gi.body[0].value)
-        gtr = PTr({'g_qbfs(n_minus_2)': 'g', 'h_qbfs(n_minus_2)': 'h', 'f_qbfs(n_minus_1)': 'f'}, ints=['n_minus_1'])
-        gret = [s for s in gi.orelse if isinstance(s, ast.Return)][0].value
-        gb = gtr.expr(gret)
-        # f(n) = sqrt(n(n+1) + 3 - g(n-1)^2 - h(n-2)^2) ; f(0) = 2 ; f(1) = sqrt(19)/2
-        fi = [s for s in f.body if isinstance(s, ast.If)][0]
-        if ast.unparse(fi.test) != 'n == 0' or ast.unparse(fi.orelse[0].test) != 'n == 1':
-            raise Untranslatable('f_qbfs base cases')
-        ftr = PTr({'g_qbfs(n - 1)': 'g', 'h_qbfs(n - 2)': 'h'}, ints=['n'], sqrt='sqrt')
-        f0 = ftr.expr(fi.body[0].value)
-        f1 = ftr.expr(fi.orelse[0].body[0].value)
-        fb = Body(ftr).run(fi.orelse[0].orelse, ftr)
-        return (f'def qbfsHBody (n_minus_2 : Int) (f : K) : K :=\n  {hb}\n'
-                f'def qbfsG0 : K := {g0}\n'
-                f'def qbfsGBody (g h f : K) : K := {gb}\n'
-                f'def qbfsF0 (sqrt : K → K) : K := {f0}\n'
-                f'def qbfsF1 (sqrt : K → K) : K := {f1}\n'
-                f'def qbfsFBody (sqrt : K → K) (n : Int) (g h : K) : K :=\n  {fb}')
-    g.item('qbfs.fgh', 'prysm/polynomials/qpoly.py:f_qbfs,g_qbfs,h_qbfs',
-           lambda: ast.Module(body=[get_def(qp, 'f_qbfs'), get_def(qp, 'g_qbfs'), get_def(qp, 'h_qbfs')], type_ignores=[]),
-           fgh,
-           f'def qbfsHBody (n_minus_2 : Int) (f : K) : K := {M}.qbfsH n_minus_2.toNat f\n'
-           f'def qbfsG0 : K := Num.ofFrac (-1) 2\n'
-           f'def qbfsGBody (g h f : K) : K := -(Num.ofInt 1 + g * h) / f\n'
-           f'def qbfsF0 (sqrt : K → K) : K := Num.ofInt 2\n'
-           f'def qbfsF1 (sqrt : K → K) : K := sqrt (Num.ofInt 19) / Num.ofInt 2\n'
-           f'def qbfsFBody (sqrt : K → K) (n : Int) (g h : K) : K := '
-           f'sqrt (Num.ofInt n * (Num.ofInt n + Num.ofInt 1) + Num.ofInt 3 - g * g - h * h)')
+    # ---- Qbfs: whole bodies of the mutually recursive auxiliary f/g/h (recursive calls -> the model's functions), sqrt a parameter
+    REC = {'f_qbfs': f'{M}.qbfsFi sqrt', 'g_qbfs': f'{M}.qbfsGi sqrt', 'h_qbfs': f'{M}.qbfsHi sqrt'}
+    for (py, lean) in (('f_qbfs', 'qbfsFBody'), ('g_qbfs', 'qbfsGBody'), ('h_qbfs', 'qbfsHBody')):
+        def build(py=py, lean=lean):
+            fn = get_def(qp, py)
+            (par,) = [a.arg for a in fn.args.args]
+            return translate_fn(fn, lean, [par], [], tr_kwargs={'intfuncs': REC, 'sqrt': 'sqrt'}, extra_binders='(sqrt : K → K) ')
+        g.item(py, f'prysm/polynomials/qpoly.py:{py}', (lambda py=py: get_def(qp, py)), build,
+               f'def {lean} (sqrt : K → K) (k : Int) : K := {M}.qbfs{py[0].upper()}i sqrt k')
 
     def qbfs():
         fn = get_def(qp, 'Qbfs')
